@@ -64,6 +64,8 @@ class A(Adapter):
         from jumanji.environments.routing.robot_warehouse.generator import RandomGenerator
         g = RandomGenerator(shelf_rows=c["sr"], shelf_columns=c["sc"], column_height=c["h"], num_agents=c["a"],
                             sensor_range=c["rng"], request_queue_size=c["q"])
+        if c.get("tl") == 2:
+            return RobotWarehouse(g, c["tl"])  # (time_limit = 2 configurations pass the documented leading parameters positionally)
         kw = {} if c.get("tl") is None else {"time_limit": c["tl"]}
         return RobotWarehouse(generator=g, **kw)
 
